@@ -601,3 +601,101 @@ Section Line.
       apply Nat.ltb_lt in Hlt. now rewrite Hlt.
   Qed.
 End Line.
+
+(* ------------------------------------------------------------------ probes on a restricted basis *)
+Local Open Scope nat_scope.
+
+Lemma set_nth_length {A : Type} : forall (l : list A) n v, length (set_nth n v l) = length l.
+Proof. induction l as [|a l IH]; intros [|n] v; simpl; auto. Qed.
+
+Lemma nth_set_nth {A : Type} (d : A) : forall (l : list A) n v c,
+    nth c (set_nth n v l) d = if Nat.eqb c n && (n <? length l) then v else nth c l d.
+Proof.
+  induction l as [|a l IH]; intros n v c; simpl.
+  - destruct n; simpl; rewrite andb_false_r; reflexivity.
+  - destruct n as [|n]; destruct c as [|c]; simpl; try reflexivity.
+    rewrite IH. replace (S n <? S (length l)) with (n <? length l) by reflexivity. reflexivity.
+Qed.
+
+Lemma col_table_inv : forall (ti : list nat) (nelems : nat) (pre : list nat) (tab : list (option nat)),
+    (forall c j, nth c tab None = Some j -> j < length pre /\ nth j (pre ++ ti) 0 = c) ->
+    forall c j,
+      nth c (fold_left (fun tab jc => set_nth (snd jc) (Some (fst jc)) tab)
+                       (combine (seq (length pre) (length ti)) ti) tab) None = Some j ->
+      j < length (pre ++ ti) /\ nth j (pre ++ ti) 0 = c.
+Proof.
+  induction ti as [|t ti IH]; intros nelems pre tab Hinv c j H; simpl in H.
+  - rewrite app_nil_r in *. apply Hinv in H. tauto.
+  - replace (pre ++ t :: ti) with ((pre ++ [t]) ++ ti) in * by (rewrite <- app_assoc; reflexivity).
+    replace (S (length pre)) with (length (pre ++ [t])) in H by (rewrite app_length; simpl; lia).
+    apply (IH nelems (pre ++ [t]) _) in H; [exact H|].
+    intros c' j' H'. simpl in H'. rewrite nth_set_nth in H'.
+    destruct (Nat.eqb c' t && (t <? length tab)) eqn:E.
+    + inversion H'; subst j'. apply andb_true_iff in E. destruct E as [E _]. apply Nat.eqb_eq in E. subst c'.
+      split; [rewrite app_length; simpl; lia|].
+      rewrite <- app_assoc. rewrite app_nth2 by lia. rewrite Nat.sub_diag. reflexivity.
+    + apply Hinv in H'. destruct H' as [H1 H2]. split; [rewrite app_length; simpl; lia | exact H2].
+Qed.
+
+(* every remapped cell c' is a position of tind holding the located global cell *)
+Theorem restrict_cells_spec : forall nelems ti cells cells',
+    restrict_cells nelems (Some ti) cells = Some cells' ->
+    Forall2 (fun c c' => c' < length ti /\ nth c' ti 0 = c) cells cells'.
+Proof.
+  intros nelems ti cells cells' H. unfold restrict_cells in H. apply all_some_Forall2 in H.
+  remember (map (fun c => nth c (col_table nelems ti) None) cells) as l eqn:El. revert cells El.
+  induction H as [|o a l r Hoa H IH]; intros cells El; destruct cells as [|c cells]; try discriminate; [constructor|].
+  simpl in El. inversion El; subst. constructor; [|now apply IH].
+  unfold col_table in H1. symmetry in H1.
+  exact (col_table_inv ti nelems [] (repeat None nelems)
+           (fun c0 j0 Hc => ltac:(exfalso; revert Hc; clear; revert c0; induction nelems as [|n IHn]; intros [|c0]; simpl; try discriminate; apply IHn)) c a H1).
+Qed.
+
+(* a located cell outside tind is an error *)
+Theorem restrict_cells_outside : forall nelems ti cells c,
+    In c cells -> ~ In c ti -> restrict_cells nelems (Some ti) cells = None.
+Proof.
+  intros nelems ti cells c Hc Hn. unfold restrict_cells. apply all_some_None. apply in_map_iff. exists c. split; [|exact Hc].
+  destruct (nth c (col_table nelems ti) None) as [j|] eqn:E; [|reflexivity]. exfalso.
+  assert (H : restrict_cells nelems (Some ti) [c] = Some [j]) by (unfold restrict_cells; simpl; now rewrite E).
+  apply restrict_cells_spec in H. inversion H as [|c0 j0 l1 l2 Hp Hrest]; subst. destruct Hp as [Hj Hnth].
+  apply Hn. rewrite <- Hnth. now apply nth_In.
+Qed.
+
+Local Open Scope Q_scope.
+(* probes_spec for a basis restricted to the cells tind: with the remapped columns into the restricted dof table
+   element_dofs[:, tind], row r of probes(x) @ y uses the dofs of the located GLOBAL cell *)
+Theorem probes_spec_restricted : forall (edofs : list (list nat)) (nelems : nat) (ti cells cells' : list nat)
+    (comp : nat) (phi : nat -> nat -> nat -> Q) (y : nat -> Q) (r : nat),
+    restrict_cells nelems (Some ti) cells = Some cells' -> (0 < length cells)%nat -> (r < comp * length cells)%nat ->
+    coo_apply (tile (arange (comp * length cells)) (length edofs)) (cols_flat (restrict_edofs edofs ti) (tile cells' comp))
+              (phis_flat (length edofs) comp (length cells) phi) y r
+    == qsum (map (fun k => phi k (r / length cells)%nat (r mod length cells)%nat
+                           * y (nth (nth (r mod length cells) cells 0%nat) (nth k edofs []) 0%nat)) (seq 0 (length edofs))).
+Proof.
+  intros edofs nelems ti cells cells' comp phi y r Hr Hn Hlt.
+  pose proof (restrict_cells_spec _ _ _ _ Hr) as F.
+  assert (Hlen : length cells' = length cells) by (symmetry; eapply Forall2_len; exact F).
+  assert (Hle : length (restrict_edofs edofs ti) = length edofs) by (unfold restrict_edofs; now rewrite map_length).
+  pose proof (probes_spec cells' comp phi y ltac:(rewrite Hlen; exact Hn) (restrict_edofs edofs ti) r ltac:(rewrite Hlen; exact Hlt)) as P.
+  rewrite Hlen, Hle in P. rewrite P. clear P.
+  assert (E : forall k, (k < length edofs)%nat ->
+      nth (nth (r mod length cells) cells' 0%nat) (nth k (restrict_edofs edofs ti) []) 0%nat
+      = nth (nth (r mod length cells) cells 0%nat) (nth k edofs []) 0%nat).
+  { intros k Hk. unfold restrict_edofs.
+    rewrite (nth_indep _ [] (gather 0%nat [] ti)) by (rewrite map_length; exact Hk).
+    rewrite (map_nth (fun row => gather 0%nat row ti)). unfold gather.
+    assert (Hp : (r mod length cells < length cells)%nat) by (apply Nat.mod_upper_bound; lia).
+    assert (G : (nth (r mod length cells) cells' 0 < length ti /\ nth (nth (r mod length cells) cells' 0) ti 0 = nth (r mod length cells) cells 0)%nat).
+    { clear -F Hp. revert Hp. generalize (r mod length cells)%nat as p. induction F as [|c c' cs cs' Hcc F IH]; intros p Hp; [simpl in Hp; lia|].
+      destruct p as [|p]; [exact Hcc | apply IH; simpl in Hp; lia]. }
+    destruct G as [G1 G2].
+    rewrite (nth_indep _ 0%nat (nth 0%nat (nth k edofs []) 0%nat)) by (rewrite map_length; exact G1).
+    rewrite (map_nth (fun i => nth i (nth k edofs []) 0%nat)). now rewrite G2. }
+  assert (M : map (fun k => phi k (r / length cells)%nat (r mod length cells)%nat
+                     * y (nth (nth (r mod length cells) cells' 0%nat) (nth k (restrict_edofs edofs ti) []) 0%nat)) (seq 0 (length edofs))
+              = map (fun k => phi k (r / length cells)%nat (r mod length cells)%nat
+                     * y (nth (nth (r mod length cells) cells 0%nat) (nth k edofs []) 0%nat)) (seq 0 (length edofs))).
+  { apply map_ext_in. intros k Hk. apply in_seq in Hk. rewrite E by lia. reflexivity. }
+  rewrite M. reflexivity.
+Qed.
